@@ -22,6 +22,18 @@ def admissible_after(world, ctx):
             m.points.extend(p.copy() for p in extra[:n])
             m.next_uid = post.next_uid
             states.append(m)
+    # flush_on_insert=False (C12 only): rows acknowledged by earlier inserts
+    # may still sit in the dying process's buffer; they reach the file in
+    # order, so the old contents may lack a suffix of them
+    pend = 0
+    if world.prop == "C12" and world.csv and \
+            not world.cfg["flush_on_insert"]:
+        pend = min(ctx.get("pre_pending", 0), len(pre.points))
+    for j in range(1, pend + 1):
+        m = pre.copy()
+        del m.points[len(m.points) - j:]
+        m.lost_tail = j
+        states.append(m)
     if not post.same_state(pre):
         states.append(post)
     return states
@@ -82,7 +94,11 @@ def after_crash(world, ctx):
         world.control_plan[i] = ("keep", "reopen")
         if k == "insert_multiple" and len(states) > 2:
             world.control_plan[i] = ("keep", "reopen")
-    if k == "insert_multiple" and s is not states[0] and s is not states[-1]:
+    if getattr(s, "lost_tail", 0):
+        world.probe("crash-lost-buffered-rows")
+        world.control_plan[i] = ("drop", "reopen")
+    elif k == "insert_multiple" and s is not states[0] and \
+            s is not states[-1]:
         world.control_plan[i] = (
             "prefix", "reopen",
             len(s.points) - len(ctx["pre_model"].points))
